@@ -168,6 +168,19 @@ Theorem C11_reconnect_connect_ctx_error : forall rc x, x <> CtxLive ->
   chain_contains unwraps_fixed (ctx_sentinel x) (rconnect_err rc x) = true.
 Proof. exact reconnect_connect_ctx_error. Qed.
 
+(* the hand-off of the first connection's result never blocks the loop goroutine (done has capacity 1): from
+   "CONNACK accepted" it reaches its supervising select in every environment, whatever the caller of Connect does *)
+Theorem C11_reconnect_handoff_never_blocks : forall e, exists e', lstep LHandoff e = Some (LUp, e').
+Proof. exact handoff_never_blocks. Qed.
+
+Theorem C11_reconnect_connack_accepted_reaches_supervision : forall e, r_ack e = true -> fst (lrun 2 LConnect e) = LUp.
+Proof. exact connack_accepted_reaches_supervision. Qed.
+
+(* Connect's context ending before the dial / during it / after SetClient / waiting CONNACK / after CONNACK was
+   accepted but before the hand-off / after Connect returned, followed by Disconnect, a peer close or nothing *)
+Theorem C11_reconnect_connect_ctx_at_each_point : forall p f, In (p, f) cxmatrix -> cx_ok p (cx_run p f) = true.
+Proof. exact connect_ctx_at_each_point. Qed.
+
 Theorem C11_reconnect_matrix_is_all : forall p z, rvalid p z = true -> In (p, z) rmatrix.
 Proof. exact rmatrix_complete. Qed.
 
@@ -197,5 +210,8 @@ Print Assumptions C11_reconnect_connect_ctx_error.
 Print Assumptions C11_connect_lock_blocks.
 Print Assumptions C11_connect_lock_refuted.
 Print Assumptions C11_reconnect_returns.
+Print Assumptions C11_reconnect_handoff_never_blocks.
+Print Assumptions C11_reconnect_connack_accepted_reaches_supervision.
+Print Assumptions C11_reconnect_connect_ctx_at_each_point.
 Print Assumptions C11_reconnect_matrix_is_all.
 Print Assumptions C11_reconnect_loop_exits.
